@@ -132,6 +132,11 @@ pub fn extract_injections<D: Doc>(root: Node<D>) -> HashMap<String, Vec<TSRange>
   };
   let injections = unsafe { &*addr_of!(LANG_INJECTIONS) };
   extract_custom_inject(injections, root, &mut ret);
+  // the regions of one language come from several injection rules, each in document order of
+  // its own matches: the parser only accepts included ranges that are sorted
+  for ranges in ret.values_mut() {
+    ranges.sort_by_key(|r| r.start_byte());
+  }
   ret
 }
 
